@@ -19,16 +19,17 @@ import RawPanelVerif.Lemmas.GorwpLts
     parses into a FRESH object (rawpanel.go 321), so the object handed out depends on the latest JSON text only.  On the
     implementation this is checked by the harness (digest of `GetTopology()` = digest of a fresh parse of the stored
     JSON: Spec clause `getter_topology_not_latest`, driver `tg = tf`), not by this theorem.
-  * `reader_filter_transparent`, `client_dispatch_exactly_once_in_order[_keep_all]` — the reader drops messages whose
-    flow field is ACK (binary) / `ack` lines (ASCII): nothing is lost provided such a message carries nothing else.
-    `ack_message_with_event_dropped_counterexample`: CODE AS IT IS, binary: an ACK message that carries an event is
-    dropped whole — the handler is not invoked (guard exact).  OPEN FINDING, reported, library unchanged.
-  * `connect_succeeds_iff_four_items_in_window` — `Connect` as it should be (a cancelled context during initialisation
-    is an error unless initialised; model flag `strictInit`): for every course of the initialisation window, success ⇔
-    model, serial, topology JSON and SVG arrived within it (`Spec.connectResult`).
+  * `reader_filter_transparent`, `client_dispatch_exactly_once_in_order` — the reader of the code as it is drops only a
+    bare acknowledge (binary: `proto.Equal` with a bare ACK message; ASCII: the line `ack`): nothing is lost, for every
+    history.  `client_dispatch_exactly_once_in_order_pinned` + `ack_message_with_event_dropped_counterexample`: the
+    PINNED binary reader dropped every message with flow field ACK whole, so the handler of an event such a message
+    carried was not invoked (guard exact).  Repaired by `fix:` 2f9fdd6.
+  * `connect_succeeds_iff_four_items_in_window` — `Connect` of the code as it is (a cancelled context during
+    initialisation is an error unless initialised; model flag `strictInit`): for every course of the initialisation
+    window, success ⇔ model, serial, topology JSON and SVG arrived within it (`Spec.connectResult`).
     `connect_pinned_ok_when_connection_survives_window` / `connect_pinned_succeeds_on_lost_connection` /
-    `connect_pinned_success_on_lost_connection_counterexample`: CODE AS IT IS returns success whenever the connection is
-    lost inside the window (panel closes, over-limit header, stalled frame).  OPEN FINDING, reported, library unchanged.
+    `connect_pinned_success_on_lost_connection_counterexample`: the PINNED `init` returned success whenever the
+    connection was lost inside the window (panel closes, over-limit header, stalled frame).  Repaired by `fix:` 800ac1d.
 (b) The LTS of the goroutines around the two bounded queues, for all capacities (`caps` = the ones in the source).
     The code as it is has THREE goroutines — reader, dispatcher, writer (+ ticker); the pinned code had one `select`
     loop doing dispatch and writing.
@@ -492,20 +493,29 @@ theorem dispatchMsg_pureAck (b : Bindings) (m : OutMsg) (hp : pureAck m = true) 
   simp only [pureAck, Bool.and_eq_true, List.isEmpty_iff] at hp
   simp [dispatchMsg, hp.2]
 
-/-- THE READER'S FILTER LOSES NOTHING — provided every message whose flow field is ACK carries nothing else (the guard
-is exact, see `ack_message_with_event_dropped_counterexample`): the invocation log, the number of acknowledges sent and
-the state are those of the unfiltered history, so every theorem above about `dispatch` / `effects` / `finalState`
-holds for what the panel SENT.  Without the guard for a reader that forwards everything (`dropAck = false`, the ASCII
-reader). -/
-theorem reader_filter_transparent (dropAck : Bool) (b : Bindings) : ∀ (h : List OutMsg) (s : PState),
-    (∀ m ∈ h, m.flow = .ack → pureAck m = true) →
-    clientLog dropAck b h = dispatch b h ∧ clientAcks dropAck h = acks h ∧ clientState dropAck s h = finalState s h
-      ∧ histItems (readerView dropAck h) = histItems h
+theorem dropped_is_pure (f : AckFilter) (m : OutMsg) (hg : f = .whole → m.flow = .ack → pureAck m = true)
+    (hk : ¬ readerKeeps f m = true) : m.flow = .ack ∧ pureAck m = true := by
+  cases f with
+  | whole =>
+    have ha : m.flow = .ack := by simpa [readerKeeps] using hk
+    exact ⟨ha, hg rfl ha⟩
+  | bare => simpa [readerKeeps] using hk
+  | none => simp [readerKeeps] at hk
+
+/-- THE READER'S FILTER LOSES NOTHING.  For the code as it is (binary reader: `bare`, ASCII reader: `none`) without any
+condition; for the pinned binary reader (`whole`) provided every message whose flow field is ACK carries nothing else
+(the guard is exact, see `ack_message_with_event_dropped_counterexample`).  The invocation log, the number of
+acknowledges sent and the state are those of the unfiltered history, so every theorem above about `dispatch` /
+`effects` / `finalState` holds for what the panel SENT. -/
+theorem reader_filter_transparent (f : AckFilter) (b : Bindings) : ∀ (h : List OutMsg) (s : PState),
+    (f = .whole → ∀ m ∈ h, m.flow = .ack → pureAck m = true) →
+    clientLog f b h = dispatch b h ∧ clientAcks f h = acks h ∧ clientState f s h = finalState s h
+      ∧ histItems (readerView f h) = histItems h
   | [], _, _ => ⟨rfl, rfl, rfl, rfl⟩
   | m :: r, s, hg => by
-    have hr : ∀ m' ∈ r, m'.flow = .ack → pureAck m' = true := fun m' hm => hg m' (by simp [hm])
-    by_cases hk : readerKeeps dropAck m = true
-    · obtain ⟨i1, i2, i3, i4⟩ := reader_filter_transparent dropAck b r (applyMsg s m) hr
+    have hr : f = .whole → ∀ m' ∈ r, m'.flow = .ack → pureAck m' = true := fun hf m' hm => hg hf m' (by simp [hm])
+    by_cases hk : readerKeeps f m = true
+    · obtain ⟨i1, i2, i3, i4⟩ := reader_filter_transparent f b r (applyMsg s m) hr
       unfold clientLog clientAcks clientState readerView at *
       simp only [List.filter_cons, hk, if_true]
       refine ⟨?_, ?_, ?_, ?_⟩
@@ -513,11 +523,8 @@ theorem reader_filter_transparent (dropAck : Bool) (b : Bindings) : ∀ (h : Lis
       · simp only [acks, List.filter_cons] at i2 ⊢; split <;> simp_all
       · simp only [finalState, List.foldl_cons] at i3 ⊢; exact i3
       · simp only [histItems, List.flatMap_cons] at i4 ⊢; rw [i4]
-    · have hack : m.flow = .ack := by
-        cases hd : dropAck <;> simp [readerKeeps, hd] at hk
-        exact hk
-      have hp := hg m (by simp) hack
-      obtain ⟨i1, i2, i3, i4⟩ := reader_filter_transparent dropAck b r s hr
+    · obtain ⟨hack, hp⟩ := dropped_is_pure f m (fun hf => hg hf m (by simp)) hk
+      obtain ⟨i1, i2, i3, i4⟩ := reader_filter_transparent f b r s hr
       unfold clientLog clientAcks clientState readerView at *
       simp only [List.filter_cons, hk]
       refine ⟨?_, ?_, ?_, ?_⟩
@@ -526,31 +533,29 @@ theorem reader_filter_transparent (dropAck : Bool) (b : Bindings) : ∀ (h : Lis
       · simp only [finalState, List.foldl_cons, applyMsg_pureAck s m hp] at i3 ⊢; exact i3
       · simp only [histItems, List.flatMap_cons, toItems_pureAck m hack hp, List.nil_append] at i4 ⊢; exact i4
 
-theorem readerView_keep_all (h : List OutMsg) : readerView false h = h := by
-  simp [readerView, readerKeeps]
+/-- EXACTLY ONCE for what the panel sent, through the reader's filter of the CODE AS IT IS (either protocol mode):
+no condition on the history -/
+theorem client_dispatch_exactly_once_in_order (f : AckFilter) (hf : f ≠ .whole) (b : Bindings) (h : List OutMsg) :
+    checkLog (toSBindings b) (eventsOf (histItems h)) ((clientLog f b h).map toSInv) = .ok := by
+  rw [(reader_filter_transparent f b h {} (fun hw => absurd hw hf)).1]
+  exact dispatch_exactly_once_in_order b h
 
-/-- exactly-once dispatch for what the panel sent, through the reader's filter -/
-theorem client_dispatch_exactly_once_in_order (dropAck : Bool) (b : Bindings) (h : List OutMsg)
+/-- the same for the pinned binary reader, under its guard -/
+theorem client_dispatch_exactly_once_in_order_pinned (b : Bindings) (h : List OutMsg)
     (hg : ∀ m ∈ h, m.flow = .ack → pureAck m = true) :
-    checkLog (toSBindings b) (eventsOf (histItems h)) ((clientLog dropAck b h).map toSInv) = .ok := by
-  rw [(reader_filter_transparent dropAck b h {} hg).1]
+    checkLog (toSBindings b) (eventsOf (histItems h)) ((clientLog .whole b h).map toSInv) = .ok := by
+  rw [(reader_filter_transparent .whole b h {} (fun _ => hg)).1]
   exact dispatch_exactly_once_in_order b h
 
-/-- the same without any guard for a reader that forwards every message -/
-theorem client_dispatch_exactly_once_in_order_keep_all (b : Bindings) (h : List OutMsg) :
-    checkLog (toSBindings b) (eventsOf (histItems h)) ((clientLog false b h).map toSInv) = .ok := by
-  unfold clientLog; rw [readerView_keep_all]
-  exact dispatch_exactly_once_in_order b h
-
-/-- CODE AS IT IS, binary reader: a message with flow field ACK that also carries an event is dropped whole — the bound
-handler is not invoked for an event the panel sent (the specification's verdict: the log is short).  A reader that
-drops only the acknowledge itself dispatches it. -/
+/-- PINNED binary reader (repaired by `fix:` 2f9fdd6): a message with flow field ACK that also carries an event is
+dropped whole — the bound handler is not invoked for an event the panel sent (the specification's verdict: the log is
+short).  The reader of the code as it is, which drops only a bare acknowledge, dispatches it. -/
 theorem ack_message_with_event_dropped_counterexample :
     let m : OutMsg := { flow := .ack, events := [{ id := 1, binary := some ⟨true, 0⟩ }] }
     let b : Bindings := { binary := [1] }
-    clientLog true b [m] = []
-    ∧ checkLog (toSBindings b) (eventsOf (histItems [m])) ((clientLog true b [m]).map toSInv) = .short
-    ∧ checkLog (toSBindings b) (eventsOf (histItems [m])) ((clientLog false b [m]).map toSInv) = .ok := by decide
+    clientLog .whole b [m] = []
+    ∧ checkLog (toSBindings b) (eventsOf (histItems [m])) ((clientLog .whole b [m]).map toSInv) = .short
+    ∧ checkLog (toSBindings b) (eventsOf (histItems [m])) ((clientLog .bare b [m]).map toSInv) = .ok := by decide
 
 /-! ### `Connect` -/
 
@@ -602,7 +607,7 @@ theorem connectFrom_pinned : ∀ (evs : List InitEv) (s : PState),
   | .ctxDone :: _, s => by simp [connectFrom, windowMsgs, finalState, endedByCtxDone]
   | .windowClosed :: _, s => by simp [connectFrom, windowMsgs, finalState, endedByCtxDone]
 
-/-- CONNECT RESULT, code as it should be (`ctx.Done()` during initialisation is an error unless the state is
+/-- CONNECT RESULT, code as it is (`ctx.Done()` during initialisation is an error unless the state is
 initialised): for every course of the initialisation window — any messages in any order, the window ended by the timer,
 by the loss of the connection (EOF, over-limit header, stalled frame) or by the caller's cancel — connecting succeeds
 exactly when model, serial, topology JSON and SVG arrived within the window -/
@@ -614,8 +619,8 @@ theorem connect_succeeds_iff_four_items_in_window (evs : List InitEv) :
     rw [connectFrom_strict, init_iff_four_items]
   exact ⟨h, by simp [connectResult, h]⟩
 
-/-- CODE AS IT IS: the same holds as long as the window is ended by the timer or by the fourth item (guard exact:
-next theorem) -/
+/-- PINNED `init` (repaired by `fix:` 800ac1d): the same holds as long as the window is ended by the timer or by the
+fourth item (guard exact: next theorem) -/
 theorem connect_pinned_ok_when_connection_survives_window (evs : List InitEv) (hc : endedByCtxDone evs = false) :
     connect false evs = allFourArrived (windowItems evs)
     ∧ connectResult (windowItems evs) (connect false evs) = none := by
@@ -624,13 +629,13 @@ theorem connect_pinned_ok_when_connection_survives_window (evs : List InitEv) (h
     rw [connectFrom_pinned, init_iff_four_items, hc, Bool.or_false]
   exact ⟨h, by simp [connectResult, h]⟩
 
-/-- CODE AS IT IS: whenever the connection is lost (or the context cancelled) inside the window, `Connect` returns
+/-- PINNED `init`: whenever the connection is lost (or the context cancelled) inside the window, `Connect` returns
 success — whatever has arrived -/
 theorem connect_pinned_succeeds_on_lost_connection (evs : List InitEv) (hc : endedByCtxDone evs = true) :
     connect false evs = true := by
   unfold connect; rw [connectFrom_pinned, hc, Bool.or_true]
 
-/-- CODE AS IT IS: the panel closes the connection right after the probe, nothing has arrived, `Connect` returns
+/-- PINNED `init`: the panel closes the connection right after the probe, nothing has arrived, `Connect` returns
 `(panel, nil)`; and the same after model and serial only.  The specification's verdict, and the repaired `init` on the
 same histories. -/
 theorem connect_pinned_success_on_lost_connection_counterexample :
@@ -827,7 +832,7 @@ example : checkLogDyn {} [.event { id := 3, pulsed := some 1 }, .bind .pulsed 3,
     [.pulsed 3 1, .pulsed 3 (-1)] = .mismatch := by decide
 
 /-- an acknowledge that carries nothing is dropped without loss -/
-example : clientLog true { binary := [1] } [{ flow := .ack }, { events := [{ id := 1, binary := some ⟨true, 0⟩ }] }]
+example : clientLog .bare { binary := [1] } [{ flow := .ack }, { events := [{ id := 1, binary := some ⟨true, 0⟩ }] }]
     = [.binary 1 1 0] := by decide
 
 /-- the four items arriving in two messages make `Connect` succeed in both variants; the SVG arriving after the
